@@ -1,5 +1,5 @@
 // C05 — user login only by a listed key or a live grant, failing closed.
-// (1) every authorized_keys file of <=N lines over 12 line kinds (x final newline) plus missing /
+// (1) every authorized_keys file of <=N lines over 18 line kinds (x final newline) plus missing /
 // unreadable / failing files, x users x client keys, on a real HopServer; (2) explicit-state BFS
 // over grant histories (AddAuthGrant / Login) with authgrants enabled and disabled, against a
 // multiset-of-live-grants reference.
@@ -61,6 +61,8 @@ var lineKinds = []struct {
 }{
 	{"K1", ""}, {"K2", ""}, {"K3", ""}, {"comment", "# a comment"}, {"empty", ""}, {"blanks", "   \t "}, {"garbage", "garbage"},
 	{"K1-truncated-base64", ""}, {"K1-sign-prefix", ""}, {"31-byte-key", ""}, {"K1-trailing-blanks", ""}, {"K1-CR", ""},
+	// a valid key text that is not the whole entry: commented out, text before / after it, twice on a line, prefix in capitals
+	{"K1-commented-out", ""}, {"K1-commented-out-blank", ""}, {"K1-text-before", ""}, {"K1-text-after", ""}, {"K1-twice", ""}, {"K1-capital-prefix", ""},
 }
 
 func init() {
@@ -79,6 +81,12 @@ func init() {
 	set("31-byte-key", keys.DHPublicKeyPrefix+base64.StdEncoding.EncodeToString(K[1][:31]))
 	set("K1-trailing-blanks", K[1].String()+"  \t")
 	set("K1-CR", K[1].String()+"\r")
+	set("K1-commented-out", "#"+K[1].String())
+	set("K1-commented-out-blank", "# "+K[1].String())
+	set("K1-text-before", "revoked:"+K[1].String())
+	set("K1-text-after", K[1].String()+" alice@laptop")
+	set("K1-twice", K[1].String()+K[1].String())
+	set("K1-capital-prefix", strings.ToUpper(keys.DHPublicKeyPrefix)+b64(K[1]))
 }
 
 // listed is the property's notion, line by line: after trimming white space the line is exactly
@@ -416,7 +424,7 @@ func main() {
 	for i := 1; i <= 3; i++ {
 		leafs[i] = leafFor(K[i])
 	}
-	r.SetRule("(1) authorized_keys contents: every sequence of <=3 (quick) / <=4 (thorough) lines over 12 line kinds (three valid keys incl. another user's, comment, empty, blanks, garbage, truncated base64, signing-key prefix, 31-byte key, trailing blanks, CR) with and without final newline, plus missing file, open errors, empty file, directory in its place and read errors after every 7th byte, x users {alice, bob, unknown} x client keys (plus all 256 single-bit variants of a listed key), on a real HopServer with an in-memory file system; oracle (one-directional): granted => the key is, line by line, a well-formed entry of that user's file. (2) explicit-state BFS over histories of AddAuthGrant(user,key,type) / Login(user,key) (2 users x 2 keys x 2 grant types) with authgrants enabled and disabled, login composed as checkAuthorization composes AuthorizeKey and AuthorizeKeyAuthGrant; reference = multiset of live grants; states deduplicated on (grant map, transport key set, reference). distinct_nontrivial = distinct file line sequences + BFS states.")
+	r.SetRule("(1) authorized_keys contents: every sequence of <=3 (quick) / <=4 (thorough) lines over 18 line kinds (three valid keys incl. another user's, comment, empty, blanks, garbage, truncated base64, signing-key prefix, 31-byte key, trailing blanks, CR, and a valid key text that is not the whole entry: commented out with and without a blank, text before it, text after it, twice on one line, prefix in capitals) with and without final newline, plus missing file, open errors, empty file, directory in its place and read errors after every 7th byte, x users {alice, bob, unknown} x client keys (plus all 256 single-bit variants of a listed key), on a real HopServer with an in-memory file system; oracle (one-directional): granted => the key is, line by line, a well-formed entry of that user's file. (2) explicit-state BFS over histories of AddAuthGrant(user,key,type) / Login(user,key) (2 users x 2 keys x 2 grant types) with authgrants enabled and disabled, login composed as checkAuthorization composes AuthorizeKey and AuthorizeKeyAuthGrant; reference = multiset of live grants; states deduplicated on (grant map, transport key set, reference). distinct_nontrivial = distinct file line sequences + BFS states.")
 	files(r)
 	grantsBFS(r, true)
 	grantsBFS(r, false)
